@@ -116,3 +116,15 @@ Fixpoint missing (srcl : list (N * N)) : list (N * N) -> list (N * N) * list N :
             else go drest
         end
     end.
+
+(* ---- the start-up of a handler with fullSyncOnStart (D52): runSync reads blobs from an enumeration source until the
+   source closes its channel; a batch holds at most [cap] blobs. It returns (the blobs it copied) only if the source
+   closes; the sync loop that serves later uploads starts after it has returned. ---- *)
+Definition run_sync (closes : bool) (cap : nat) (items : list N) : option (list N) :=
+  if closes then Some (firstn cap items) else None.
+(* what reaches the destination, and whether the loop runs afterwards *)
+Definition full_sync_start (closes : bool) (cap : nat) (held : list N) : list N * bool :=
+  match run_sync closes cap held with
+  | Some copied => (copied, true)
+  | None => (firstn cap held, false)   (* the copy workers did their work; runSync itself never returns *)
+  end.
